@@ -8,7 +8,10 @@ no such run the new span is inserted at its sorted position (the code inserts at
 the sorted lists the class maintains this is the same list — checked by correspondence on
 `_spans`).
 
-`remove` is written span by span (`flatMap removeOne`).  The code mutates `_spans` while enumerating
+`remove` is written span by span (`flatMap removeOne`); `removeLit` below is the method as written
+(in-place pass `removeScan`, deferred slice delete, append+sort as ordered insertion into the not yet
+scanned suffix), the driver runs `removeLit`, and `Tahoe.C37.remove_as_written_eq` proves the two equal
+on every list satisfying the class invariant.  The code mutates `_spans` while enumerating
 it: trims are done in place, a middle split replaces the span, appends the right part, sorts and
 `break`s, and completely covered spans are deleted afterwards as one slice
 `[first_complete_overlap : last_complete_overlap+1]`.  On the sorted, disjoint lists the class
@@ -64,6 +67,40 @@ def removeOne (sp : Span) (a l : Nat) : List Span :=
 def remove (s : List Span) (a l : Nat) : List Span :=
   s.flatMap (fun sp => removeOne sp a l)
 
+/-- `self._spans.append(x); self._spans.sort()` seen from the not yet scanned suffix: ordered insertion
+(tuples compare lexicographically). -/
+def insertSpan (x : Span) : List Span → List Span
+  | [] => [x]
+  | y :: ys => if x.1 < y.1 || (x.1 == y.1 && x.2 ≤ y.2) then x :: y :: ys else y :: insertSpan x ys
+
+/-- the `for i, (s_start, s_length) in enumerate(self._spans)` pass of `Spans.remove` with its in-place edits:
+returns the edited list, `first_complete_overlap`, `last_complete_overlap`; `i` is the index of the head. -/
+def removeScan (a l : Nat) : Nat → List Span → List Span × Option Nat × Option Nat
+  | _, [] => ([], none, none)
+  | i, sp :: rest =>
+    match overlap sp.1 sp.2 a l with
+    | none => let r := removeScan a l (i + 1) rest; (sp :: r.1, r.2.1, r.2.2)
+    | some (os, ol) =>
+      let sEnd := sp.1 + sp.2
+      let oEnd := os + ol
+      if os == sp.1 && oEnd == sEnd then
+        let r := removeScan a l (i + 1) rest
+        (sp :: r.1, some i, some (r.2.2.getD i))
+      else if os == sp.1 then
+        let r := removeScan a l (i + 1) rest
+        ((oEnd, sEnd - oEnd) :: r.1, r.2.1, r.2.2)
+      else if oEnd == sEnd then
+        let r := removeScan a l (i + 1) rest
+        ((sp.1, os - sp.1) :: r.1, r.2.1, r.2.2)
+      else ((sp.1, os - sp.1) :: insertSpan (oEnd, sEnd - oEnd) rest, none, none)
+
+/-- `Spans.remove` as written: the pass, then `del self._spans[first:last+1]` -/
+def removeLit (s : List Span) (a l : Nat) : List Span :=
+  let r := removeScan a l 0 s
+  match r.2.1, r.2.2 with
+  | some f, some la => r.1.take f ++ r.1.drop (la + 1)
+  | _, _ => r.1
+
 def len (s : List Span) : Nat := (s.map (·.2)).sum
 
 /-- `__contains__((start, length))`: some single span contains the whole range. -/
@@ -84,6 +121,12 @@ def inter (s o : List Span) : List Span :=
     let bounds : List Span := [(f.1, lst.1 + lst.2)]
     removeAll s (removeAll bounds o)
   | _, none => []
+
+/-- `each()`: `for start, length in self._spans: for i in range(start, start+length): yield i` -/
+def each (s : List Span) : List Nat := s.flatMap (fun sp => List.range' sp.1 sp.2)
+
+/-- `__bool__`: `bool(self.len())` -/
+def spBool (s : List Span) : Bool := len s != 0
 
 /-- membership of a point -/
 def mem (s : List Span) (x : Nat) : Bool := s.any (fun sp => sp.1 ≤ x && x < sp.1 + sp.2)
